@@ -21,7 +21,7 @@ def short(msg, n=150):
     msg = msg.replace('|', '/')
     return (msg[:n] + '...') if len(msg) > n else msg
 
-mut = parse('/verif/mutants/results-mutants-final2.txt')  # the sweep with the final machinery
+mut = parse('/verif/mutants/results-mutants-final3.txt')  # the sweep with the final machinery
 def merged(path):
     # within one file a later line for the same (patch, check) supersedes an earlier one
     rows = {}
@@ -61,7 +61,7 @@ for k, v in merged('/verif/mutants/results-seeded-round14.txt').items():
 
 out = []
 out.append("## Appendix D. Sensitivity results: own mutants and independently seeded changes\n")
-out.append("All runs below use the **quick** tier, `VERIF_SEED` unset (0), in an isolated scratch copy of `/repo` and of the harness (`mutants/sweep.sh`). `exit=1` means the check printed a `VIOLATION` line with a shrunk replay file; the time includes the incremental rebuild of the changed repository crates (10-40 s) and shrinking. The raw lines are in `mutants/results-mutants-final2.txt` (own mutants, final machinery) and `mutants/results-seeded-*.txt`.\n")
+out.append("All runs below use the **quick** tier, `VERIF_SEED` unset (0), in an isolated scratch copy of `/repo` and of the harness (`mutants/sweep.sh`). `exit=1` means the check printed a `VIOLATION` line with a shrunk replay file; the time includes the incremental rebuild of the changed repository crates (10-40 s) and shrinking. The raw lines are in `mutants/results-mutants-final3.txt` (own mutants, re-run against the machinery as widened by seeding round 13; identical verdicts to the earlier `results-mutants-final2.txt`) and `mutants/results-seeded-*.txt`.\n")
 
 # ---- own mutants ------------------------------------------------------------------------------------
 out.append("### D.1 Own mutants (65 patch files, `mutants/catalogue-all.txt`)\n")
